@@ -117,8 +117,293 @@ impl Report {
     }
 }
 
-/// run `n_shards` closures on threads and merge their reports
+// ---------------------------------------------------------------------------------------
+// Sharding: threads, or journalled child processes (process isolation)
+// ---------------------------------------------------------------------------------------
+//
+// With isolation on, every shard of a `sharded` call runs in its own child process
+// (`xsgmon shard-run <property> <tier> <seed> <call-no> <shard> <journal>`) under an address-space
+// limit and a no-progress watchdog. Before each case the child writes the literal case to its journal,
+// so a child that dies (stack overflow, abort, out of memory, signal) or wedges pins the case that did
+// it; the parent re-runs that case alone to confirm before it raises.
+
+use std::sync::atomic::{AtomicBool, AtomicU64, AtomicUsize, Ordering};
+use std::sync::{Mutex, OnceLock};
+
+pub static RUN_ARGS: OnceLock<(String, String, u64)> = OnceLock::new();
+static CHILD_MODE: OnceLock<(usize, usize)> = OnceLock::new();
+static ISOLATE: AtomicBool = AtomicBool::new(false);
+static CALL_NO: AtomicUsize = AtomicUsize::new(0);
+static JOURNAL: Mutex<Option<std::fs::File>> = Mutex::new(None);
+pub static PROGRESS: AtomicU64 = AtomicU64::new(0);
+pub static SHARD_DONE: AtomicBool = AtomicBool::new(false);
+
+pub fn set_isolation(on: bool) {
+    ISOLATE.store(on, Ordering::Relaxed);
+}
+
+/// (call number, shard) when this process is a shard child
+pub fn child_mode() -> Option<(usize, usize)> {
+    CHILD_MODE.get().copied()
+}
+
+pub fn enter_child_mode(call_no: usize, shard: usize, journal: &str) {
+    let _ = CHILD_MODE.set((call_no, shard));
+    if let Ok(f) = std::fs::OpenOptions::new().create(true).write(true).truncate(true).open(journal) {
+        *JOURNAL.lock().unwrap() = Some(f);
+    }
+}
+
+/// record the literal case about to be executed (child processes only; free otherwise)
+pub fn journal_enter(case: impl FnOnce() -> serde_json::Value) {
+    if CHILD_MODE.get().is_none() {
+        return;
+    }
+    PROGRESS.fetch_add(1, Ordering::Relaxed);
+    if let Ok(mut g) = JOURNAL.lock() {
+        if let Some(f) = g.as_mut() {
+            use std::io::{Seek, Write};
+            let text = serde_json::to_vec(&json!({"case": case()})).unwrap_or_default();
+            let _ = f.seek(std::io::SeekFrom::Start(0));
+            let _ = f.write_all(&text);
+            let _ = f.set_len(text.len() as u64);
+        }
+    }
+}
+
+fn run_on_big_stack<F: FnOnce() -> Report + Send>(f: F) -> Report {
+    std::thread::scope(|s| {
+        match std::thread::Builder::new().stack_size(64 << 20).spawn_scoped(s, f).expect("spawn shard").join() {
+            Ok(r) => r,
+            Err(p) => {
+                let msg = p
+                    .downcast_ref::<String>()
+                    .cloned()
+                    .or_else(|| p.downcast_ref::<&str>().map(|s| s.to_string()))
+                    .unwrap_or_else(|| "?".into());
+                let mut r = Report::new();
+                r.notes.push(format!("shard panicked outside a monitored call: {}", msg));
+                r.inconclusive(&format!("harness shard panic: {}", msg));
+                r.counters.insert("harness_panics".into(), 1);
+                r
+            }
+        }
+    })
+}
+
+impl Report {
+    pub fn to_child_json(&self, hashes_path: &str) -> serde_json::Value {
+        let mut bytes: Vec<u8> = Vec::with_capacity(self.nontrivial.len() * 8);
+        for h in self.nontrivial.iter() {
+            bytes.extend_from_slice(&h.to_le_bytes());
+        }
+        let _ = std::fs::write(hashes_path, bytes);
+        json!({
+            "evaluations": self.evaluations,
+            "nontrivial_file": hashes_path,
+            "nontrivial_enumerated": self.nontrivial_enumerated,
+            "counters": self.counters,
+            "samples": self.samples,
+            "violations": self.violations.iter().map(|v| json!({"sig": v.sig, "detail": v.detail, "case": v.case, "n": self.violation_counts.get(&v.sig)})).collect::<Vec<_>>(),
+            "inconclusive": self.inconclusive,
+            "inconclusive_reasons": self.inconclusive_reasons,
+            "skipped_precondition": self.skipped_precondition,
+            "notes": self.notes,
+        })
+    }
+    pub fn merge_child_json(&mut self, v: &serde_json::Value) {
+        self.evaluations += v["evaluations"].as_u64().unwrap_or(0);
+        self.nontrivial_enumerated += v["nontrivial_enumerated"].as_u64().unwrap_or(0);
+        if let Some(f) = v["nontrivial_file"].as_str() {
+            if let Ok(bytes) = std::fs::read(f) {
+                for ch in bytes.chunks_exact(8) {
+                    self.nontrivial.insert(u64::from_le_bytes(ch.try_into().unwrap()));
+                }
+            }
+            let _ = std::fs::remove_file(f);
+        }
+        if let Some(o) = v["counters"].as_object() {
+            for (k, n) in o {
+                let n = n.as_u64().unwrap_or(0);
+                if k.starts_with("max_") {
+                    self.max(k, n);
+                } else {
+                    self.add(k, n);
+                }
+            }
+        }
+        if let Some(a) = v["samples"].as_array() {
+            for s in a {
+                self.sample(s.clone());
+            }
+        }
+        if let Some(a) = v["violations"].as_array() {
+            for x in a {
+                let n = x["n"].as_u64().unwrap_or(1);
+                let sig = x["sig"].as_str().unwrap_or("?").to_string();
+                self.violation(&sig, x["detail"].as_str().unwrap_or("").to_string(), x["case"].clone());
+                if n > 1 {
+                    *self.violation_counts.entry(sig).or_insert(0) += n - 1;
+                }
+            }
+        }
+        self.inconclusive += v["inconclusive"].as_u64().unwrap_or(0);
+        if let Some(o) = v["inconclusive_reasons"].as_object() {
+            for (k, n) in o {
+                *self.inconclusive_reasons.entry(k.clone()).or_insert(0) += n.as_u64().unwrap_or(0);
+            }
+        }
+        self.skipped_precondition += v["skipped_precondition"].as_u64().unwrap_or(0);
+        if let Some(a) = v["notes"].as_array() {
+            for n in a {
+                if let Some(t) = n.as_str() {
+                    self.notes.push(t.to_string());
+                }
+            }
+        }
+    }
+}
+
+fn private_exe_copy(work: &Path) -> PathBuf {
+    let dst = work.join("xsgmon-copy");
+    if !dst.exists() {
+        if let Ok(src) = std::env::current_exe() {
+            let _ = std::fs::create_dir_all(work);
+            if std::fs::copy(&src, &dst).is_err() {
+                return src;
+            }
+        }
+    }
+    dst
+}
+
+/// re-run one journalled case alone, in a fresh process, through `--replay`
+fn confirm_case(exe: &Path, property: &str, journal: &Path) -> (String, Option<String>) {
+    let mut outcomes = Vec::new();
+    let mut proper_violation = None;
+    for _ in 0..2 {
+        match std::process::Command::new(exe)
+            .arg(property)
+            .arg("--replay")
+            .arg(journal)
+            .env("XSG_CHILD_LIMITS", "1")
+            .stdout(std::process::Stdio::piped())
+            .stderr(std::process::Stdio::piped())
+            .output()
+        {
+            Ok(o) => {
+                let out = String::from_utf8_lossy(&o.stdout).to_string();
+                if o.status.code() == Some(1) && out.contains("VIOLATION") && proper_violation.is_none() {
+                    proper_violation = Some(out.lines().take(30).collect::<Vec<_>>().join("\n"));
+                }
+                outcomes.push(format!("{:?}", o.status));
+            }
+            Err(e) => outcomes.push(format!("spawn failed: {}", e)),
+        }
+    }
+    (outcomes.join(", "), proper_violation)
+}
+
+/// run `n_shards` closures (threads, or isolated child processes) and merge their reports
 pub fn sharded<F>(n_shards: usize, f: F) -> Report
+where
+    F: Fn(usize) -> Report + Sync,
+{
+    let call_no = CALL_NO.fetch_add(1, Ordering::Relaxed);
+    if let Some((c, shard)) = child_mode() {
+        // this process IS one shard of one call
+        if c != call_no {
+            return Report::new();
+        }
+        let r = run_on_big_stack(|| f(shard));
+        SHARD_DONE.store(true, Ordering::Relaxed);
+        return r;
+    }
+    if !ISOLATE.load(Ordering::Relaxed) || RUN_ARGS.get().is_none() {
+        return sharded_threads(n_shards, f);
+    }
+    let (property, tier, seed) = RUN_ARGS.get().cloned().unwrap();
+    let work = out_dir().join("work").join(format!("{}-shards-{}-{}", property.to_lowercase(), std::process::id(), call_no));
+    let _ = std::fs::create_dir_all(&work);
+    let exe = private_exe_copy(&work);
+    let mut total = Report::new();
+    let mut kids = Vec::new();
+    for i in 0..n_shards {
+        let journal = work.join(format!("shard-{}.journal", i));
+        let child = std::process::Command::new(&exe)
+            .arg("shard-run")
+            .arg(&property)
+            .arg(&tier)
+            .arg(seed.to_string())
+            .arg(call_no.to_string())
+            .arg(i.to_string())
+            .arg(&journal)
+            .stdout(std::process::Stdio::piped())
+            .stderr(std::process::Stdio::piped())
+            .spawn();
+        match child {
+            Ok(c) => kids.push((i, journal, c)),
+            Err(e) => total.inconclusive(&format!("cannot spawn shard process: {}", e)),
+        }
+    }
+    for (i, journal, child) in kids {
+        let out = match child.wait_with_output() {
+            Ok(o) => o,
+            Err(e) => {
+                total.inconclusive(&format!("shard {} wait failed: {}", i, e));
+                continue;
+            }
+        };
+        let stdout = String::from_utf8_lossy(&out.stdout).to_string();
+        let mut got = false;
+        for line in stdout.lines() {
+            if let Some(r) = line.strip_prefix("REPORT ") {
+                if let Ok(v) = serde_json::from_str::<serde_json::Value>(r) {
+                    total.merge_child_json(&v);
+                    got = true;
+                }
+            }
+        }
+        if out.status.success() && got {
+            let _ = std::fs::remove_file(&journal);
+            continue;
+        }
+        // the shard died or wedged: its journal holds the case it was running
+        total.add("shard_processes_that_died", 1);
+        let hang = stdout.contains("HANG");
+        let stderr_tail: String = String::from_utf8_lossy(&out.stderr).lines().rev().take(5).collect::<Vec<_>>().join(" | ");
+        let case: Option<serde_json::Value> = std::fs::read_to_string(&journal).ok().and_then(|t| serde_json::from_str::<serde_json::Value>(&t).ok()).map(|v| v["case"].clone());
+        match case {
+            Some(case) => {
+                let (outcomes, proper) = confirm_case(&exe, &property, &journal);
+                let reproduces = !outcomes.contains("spawn failed") && !outcomes.contains("exit status: 0") && !outcomes.contains("exit status: 2");
+                if let Some(p) = proper {
+                    total.violation("process:died-in-batch-violation-alone", format!("shard {} ended with {:?}; the journalled case alone gives:\n{}", i, out.status, p), case);
+                } else if reproduces {
+                    total.violation(
+                        if hang { "process:no-return" } else { "process:died" },
+                        format!(
+                            "shard process {} ended with {:?}{} while running the journalled case; re-running that case alone in a fresh process (4 GiB address space, 120 s no-progress watchdog): {}\nstderr: {}",
+                            i,
+                            out.status,
+                            if hang { " (no-progress watchdog)" } else { "" },
+                            outcomes,
+                            stderr_tail
+                        ),
+                        case,
+                    );
+                } else {
+                    total.inconclusive(&format!("a shard process died ({:?}) but its journalled case does not reproduce alone ({})", out.status, outcomes));
+                }
+            }
+            None => total.inconclusive(&format!("shard process {} died without a readable journal: {:?} {}", i, out.status, stderr_tail)),
+        }
+    }
+    let _ = std::fs::remove_dir_all(&work);
+    total
+}
+
+pub fn sharded_threads<F>(n_shards: usize, f: F) -> Report
 where
     F: Fn(usize) -> Report + Sync,
 {
@@ -150,6 +435,32 @@ where
         }
     });
     total
+}
+
+/// address-space limit and no-progress watchdog of a shard / replay child
+pub fn apply_child_limits() {
+    unsafe {
+        let lim = libc::rlimit { rlim_cur: 4 << 30, rlim_max: 4 << 30 };
+        libc::setrlimit(libc::RLIMIT_AS, &lim);
+    }
+    std::thread::spawn(|| {
+        let mut last = u64::MAX;
+        let mut since = Instant::now();
+        loop {
+            std::thread::sleep(std::time::Duration::from_millis(500));
+            if SHARD_DONE.load(Ordering::Relaxed) {
+                return;
+            }
+            let p = PROGRESS.load(Ordering::Relaxed);
+            if p != last {
+                last = p;
+                since = Instant::now();
+            } else if since.elapsed() > std::time::Duration::from_secs(120) {
+                println!("HANG no progress for 120 s");
+                std::process::exit(3);
+            }
+        }
+    });
 }
 
 // ---------------------------------------------------------------------------------------
